@@ -34,6 +34,10 @@ class Resolver:
         self._local_defs: dict[str, dict[str, list[ast.AST]]] = {}
         self.disagreements: list[str] = []
         self.consumed = 0
+        self._memo_cls: dict = {}
+        self._memo_attr: dict = {}
+        self._memo_callees: dict = {}
+        self._memo_prop: dict = {}
 
     # ------------------------------------------------------- annotations
     def ann_heads(self, mi: ModuleInfo, ann: ast.AST | None) -> list[str]:
@@ -108,6 +112,15 @@ class Resolver:
         _depth: int = 0,
     ) -> list[str]:
         """Class names the value of ``node`` may have (outermost heads)."""
+        key = (fi.qualname, id(node), recv_cls.qualname if recv_cls else None)
+        hit = self._memo_cls.get(key)
+        if hit is not None:
+            return hit
+        r = self._classes_of(fi, node, recv_cls, _depth)
+        self._memo_cls[key] = r
+        return r
+
+    def _classes_of(self, fi, node, recv_cls, _depth):
         self.consumed += 1
         a = self._by_annotation(fi, node, recv_cls, _depth)
         if recv_cls is not None and self._is_self(fi, node):
@@ -217,6 +230,12 @@ class Resolver:
     def _attr_annotation(self, ci: ClassInfo, attr: str) -> list[str]:
         """Type of ``self.attr`` from ``self.attr: T = ...`` or from the
         annotation of the parameter assigned to it in ``__init__``."""
+        key = (ci.qualname, attr)
+        if key not in self._memo_attr:
+            self._memo_attr[key] = self._attr_annotation_uncached(ci, attr)
+        return self._memo_attr[key]
+
+    def _attr_annotation_uncached(self, ci: ClassInfo, attr: str) -> list[str]:
         for q in ci.mro:
             c = self.repo.classes.get(q)
             if c is None:
@@ -253,6 +272,14 @@ class Resolver:
     ) -> tuple[list[FuncInfo], str | None]:
         """Package functions a call may reach, plus a printable qualified
         name (also for external callees, e.g. ``random.choice``)."""
+        key = (fi.qualname, id(call), recv_cls.qualname if recv_cls else None)
+        hit = self._memo_callees.get(key)
+        if hit is None:
+            hit = self._callees(fi, call, recv_cls)
+            self._memo_callees[key] = hit
+        return hit
+
+    def _callees(self, fi, call, recv_cls):
         f = call.func
         mi = fi.module
         # super().m(...)
@@ -339,6 +366,12 @@ class Resolver:
         self, fi: FuncInfo, node: ast.Attribute, recv_cls: ClassInfo | None = None
     ) -> FuncInfo | None:
         """The @property getter (or setter, for stores) ``node`` invokes."""
+        key = (fi.qualname, id(node), recv_cls.qualname if recv_cls else None)
+        if key not in self._memo_prop:
+            self._memo_prop[key] = self._property_target(fi, node, recv_cls)
+        return self._memo_prop[key]
+
+    def _property_target(self, fi, node, recv_cls):
         store = isinstance(node.ctx, (ast.Store, ast.Del))
         for c in self.classes_of(fi, node.value, recv_cls):
             if store:
